@@ -227,6 +227,16 @@ def invariant_edits(c, tmpdir):
     c.same('same-object-after-other-references', ds)
     del hold
     c.same('copy-shallow', ds.copy())
+    # the same dataset held in dask arrays, split into uneven chunks along every dimension: how the bytes of a geometry
+    # variable are stored in memory is not part of the geometry
+    try:
+        chunks = {d: max(1, (n + 1) // 2 - (1 if n > 3 else 0)) for d, n in ds.sizes.items()}
+        chunked = ds.chunk(chunks)
+    except Exception:  # noqa: BLE001  (dask unavailable)
+        chunked = None
+    if chunked is not None:
+        c.obs.cls('same:dask-chunked')
+        c.same('dask-chunked', chunked)
     c.same('copy-deep', ds.copy(deep=True))
 
     if grid_vars:
